@@ -2312,10 +2312,13 @@ class Side:
         """Write out one of the displacement vertex arrays."""
         assert self._disp_verts is not None
         f.write(f'{ind}\t\t{name}\n{ind}\t\t{{\n')
-        rows = [
-            str(getattr(vert, membr))
-            for vert in self._disp_verts
-        ]
+        rows = []
+        for vert in self._disp_verts:
+            value = getattr(vert, membr)
+            if isinstance(value, int):
+                # Scalars are parsed back as floats, give an int the same text as the re-parsed map would have.
+                value = float(value)
+            rows.append(str(value))
         for y in range(size):
             f.write(f'{ind}\t\t"row{y}" "{" ".join(rows[size * y:size * (y+1)])}"\n')
         f.write(f'{ind}\t\t}}\n')
